@@ -341,7 +341,12 @@ fn hexq(s: &str) -> String {
 }
 
 /// Compare one implementation table with the reference fold. `None` = unspecified case.
+/// With LIMIT / OFFSET (`case.plan.limit/offset`) `t` is what the coordinator reports of the merged
+/// table; which groups those are is not determined by the property — every *reported* group must
+/// equal the fold over all rows of that group, and their number must be
+/// min(LIMIT, groups − OFFSET).
 fn check_table(case: &Case, flows: &Flows, t: &Table) -> Option<Result<(), Mismatch>> {
+    let limited = case.plan.limit.is_some() || case.plan.offset.is_some();
     let p = &case.plan;
     let rows = &case.rows;
     // applicability
@@ -408,6 +413,7 @@ fn check_table(case: &Case, flows: &Flows, t: &Table) -> Option<Result<(), Misma
         let (ek, why) = eks[0];
         let got = match t.get(ik) {
             Some(g) => g,
+            None if limited && !(ek.0 == BRef::NoTime && t.contains_key(&(None, ik.1.clone()))) => continue,
             None => {
                 // NoTime rows may also sit under a null bucket
                 let alt = (None, ik.1.clone());
@@ -440,6 +446,21 @@ fn check_table(case: &Case, flows: &Flows, t: &Table) -> Option<Result<(), Misma
     // the empty input: an un-grouped aggregate over nothing reports nothing (accepted) — and
     // nothing else may appear
     let expected_keys = by_impl.len();
+    if limited {
+        let off = case.plan.offset.unwrap_or(0) as usize;
+        let want = expected_keys.saturating_sub(off).min(case.plan.limit.map(|l| l as usize).unwrap_or(usize::MAX));
+        // groups whose bucket the code reports as null (negative) were judged above
+        if t.len() != want {
+            return Some(Err(Mismatch {
+                class: "-",
+                detail: format!("LIMIT {:?} OFFSET {:?}: {} groups reported, {} exist: expected {}", case.plan.limit, case.plan.offset, t.len(), expected_keys, want),
+            }));
+        }
+        if let Some(k) = t.keys().find(|k| !by_impl.contains_key(*k) && !(k.0.is_none() && by_impl.contains_key(&(Some(0), k.1.clone())))) {
+            return Some(Err(Mismatch { class: "-", detail: format!("reported group {:?} does not exist in the selection", k) }));
+        }
+        return Some(Ok(()));
+    }
     if t.len() > expected_keys {
         return Some(Err(Mismatch {
             class: "-",
@@ -451,7 +472,7 @@ fn check_table(case: &Case, flows: &Flows, t: &Table) -> Option<Result<(), Misma
 
 /// class of the departure of one table from the reference fold (None = it agrees or is unspecified)
 pub fn classify(case: &Case, flows: &Flows, t: &Table) -> Option<String> {
-    match check_table(case, flows, t) {
+    match check_table(case, flows, &crate::real::reported(&case.plan, t)) {
         Some(Err(m)) => Some(m.class.to_string()),
         _ => None,
     }
@@ -477,7 +498,8 @@ pub fn check(s: &mut Stream, i: u64, case: &Case, parts: &[Flows; 3], tables: &[
             s.oracle_fail(i, "-", &format!("partition {pi}: implementation error"));
             continue;
         };
-        match check_table(case, flows, t) {
+        let rep = crate::real::reported(&case.plan, t);
+        match check_table(case, flows, &rep) {
             None => s.tally("oracle:unspecified"),
             Some(Ok(())) => s.oracle_ok(),
             Some(Err(m)) => {
@@ -487,9 +509,19 @@ pub fn check(s: &mut Stream, i: u64, case: &Case, parts: &[Flows; 3], tables: &[
         }
     }
     // 2. the same rows split differently must agree
-    let ts: Vec<&Table> = tables.iter().filter_map(|(t, _)| t.as_ref()).collect();
+    let limited = case.plan.limit.is_some() || case.plan.offset.is_some();
+    let reps: Vec<Table> = tables.iter().filter_map(|(t, _)| t.as_ref()).map(|t| crate::real::reported(&case.plan, t)).collect();
+    let ts: Vec<&Table> = reps.iter().collect();
     if ts.len() == 3 {
-        if ts[0] == ts[1] && ts[1] == ts[2] {
+        // with LIMIT / OFFSET only the groups reported by both runs must agree
+        let agree = |a: &Table, b: &Table| {
+            if limited {
+                a.len() == b.len() && a.iter().all(|(k, v)| b.get(k).map_or(true, |w| w == v))
+            } else {
+                a == b
+            }
+        };
+        if agree(ts[0], ts[1]) && agree(ts[1], ts[2]) && agree(ts[0], ts[2]) {
             s.oracle_ok();
         } else {
             let p = &case.plan;
